@@ -207,7 +207,8 @@ def lookup_history(s: str, k1: int, k2: int) -> bool:
     pre: 1 <= len(s) <= R.N(3)
     pre: _cell(s)
     pre: R.ascii_printable(s)
-    pre: 0 <= k1 <= 3 and 0 <= k2 <= 3
+    pre: 0 <= k1 <= R.env_int("VP_K1MAX", 0) and 0 <= k2 <= 3
+    pre: R.env_int("VP_K") is None or k2 == R.env_int("VP_K")
     pre: not R.known("C03-hash-term", _kf_hash_term(s, [""]))
     post: _
     """
@@ -353,9 +354,12 @@ HARNESSES = [
         oracle="three further runs of the real code on case variants",
         stubs=_STUBS + ["chx_case: ASCII-exact upper()/swapcase() model for CrossHair strings"], outside=_OUT),
     R.H("lookup_history", _T_FIND + _T_TAG,
-        quick=R.tier(cells=_cells(3, 3), env={"VP_N": 3}, timeout=600, bound=(_MINI_B % 3) + "; three lookups on one "
-                     "private schema copy: spelling k1, spelling k2, spelling k1 again (k: as written/lower/upper/swapcase)"),
-        thorough=R.tier(cells=_cells(4, 3), env={"VP_N": 4}, timeout=1800, path_timeout=60, bound=_MINI_B % 4),
+        quick=R.tier(cells=R.product_cells(_cells(3, 3, minlen=1), R.int_cells("VP_K", 0, 3)), env={"VP_N": 3},
+                     timeout=600, bound=(_MINI_B % 3) + "; three lookups on one private schema copy: the text as "
+                     "written, then its spelling k2 (as written/lower/upper/swapcase), then as written again"),
+        thorough=R.tier(cells=R.product_cells(_cells(4, 3, minlen=1), R.int_cells("VP_K", 0, 3)),
+                        env={"VP_N": 4, "VP_K1MAX": 3}, timeout=1800, path_timeout=60,
+                        bound=(_MINI_B % 4) + "; first/third spelling also any of the four"),
         what="the result of a lookup does not depend on earlier lookups on the same schema object: each spelling gets "
              "the node, canonical forms and its OWN verbatim suffix that the reference gives for its own text",
         oracle="models/mini_rules.py per lookup", stubs=["fresh deep copy of the mini schema per call (path isolation)",
